@@ -341,6 +341,38 @@ def add_full_model(rng, case):
     return case
 
 
+def gen_mevdup_case(rng):
+    """first sample complete, MEV sample PARTIAL, but all alternatives of a MEV stratum are copies of each
+    other and lie in the same nests: the weighted MEV sums n/k * sum over the sample are then exactly the
+    sums over the full choice set, so the nested / cross-nested log likelihood on the sample must still
+    equal the full model (this is where a wrong use of the weight n/k becomes visible)."""
+    case = gen_case(rng, 'full', {'mode': 'full', 'mev': True})
+    pos = {int(a[0]): i for i, a in enumerate(case['alts'])}
+    for seg in case['mev_segments']:
+        ref = case['alts'][pos[seg[0]]][1:]
+        for a in seg:
+            case['alts'][pos[a]][1:] = list(ref)
+    case['mev_sizes'] = [rng.randint(1, len(s)) for s in case['mev_segments']]
+    case['mode'] = 'mevdup'
+    complete_full_model(case)
+    nseg = len(case['mev_segments'])
+    nn = rng.randint(1, 2)
+    assign = [rng.randint(0, nn) for _ in range(nseg)]      # nn = in no nest
+    assign[0] = 0
+    case['nested'] = [{'name': f'n{m}', 'mu_name': f'mu_n{m}', 'mu': rng.choice([1.25, 1.5, 2.0, 3.0]),
+                       'alts': sorted(a for s, t in zip(case['mev_segments'], assign) if t == m for a in s)}
+                      for m in range(nn) if any(t == m for t in assign)]
+    nests = [{'name': f'c{i}', 'mu_name': f'mu_c{i}', 'mu': rng.choice([1.0, 1.5, 2.0, 2.5]), 'alphas': []} for i in range(2)]
+    for si, seg in enumerate(case['mev_segments']):
+        w = rng.choice([[1.0, None], [None, 1.0], [0.5, 0.5], [0.25, 0.75]]) if si > 1 else ([1.0, None], [0.25, 0.75])[si]
+        for m, x in enumerate(w):
+            if x is not None:
+                nests[m]['alphas'] += [[a, x] for a in seg]
+    if all(n['alphas'] for n in nests):
+        case['cnl'] = nests
+    return case
+
+
 # =============================================================== Python oracle for one merged row
 def strata_of(case, which):
     segs = case['segments'] if which == 'first' else case['mev_segments']
@@ -676,11 +708,50 @@ def direct_full_loglik(case):
     return out
 
 
+def closed_form_sample_loglik(case, sample_ids):
+    """(V_0 - ln(k_0/n_0)) - ln sum_j exp(V_j - ln(k_j/n_j)) on the sampled alternatives: the value of
+    the corrected logit (sample_loglik of Model/Sampling.v), from the harness evaluator"""
+    table = {int(a[0]): dict(zip(case['alt_cols'], a)) for a in case['alts']}
+    out = []
+    for r, sid in zip(case['inds'], sample_ids):
+        env_i = dict(zip(case['ind_cols'], r))
+        ws = []
+        for a in sid:
+            if a is None or int(a) not in table:
+                ws = None
+                break
+            env = dict(env_i)
+            env.update(table[int(a)])
+            for cv in case['combined']:
+                env[cv['name']] = feval(cv['formula'], env)
+            st = [(s, k) for s, k in zip(case['segments'], case['sizes']) if int(a) in s]
+            if len(st) != 1:
+                ws = None
+                break
+            ws.append(feval(case['utility'], env) - math.log(st[0][1] / len(st[0][0])))
+        if not ws:
+            out.append(None)
+            continue
+        m = max(ws)
+        out.append(ws[0] - (m + math.log(sum(math.exp(w - m) for w in ws))))
+    return out
+
+
 def oracle_full_case(case, res):
     out = []
     if not res.get('ok'):
         return [('exception', res.get('exc'))]
     ids = sorted(int(a[0]) for a in case['alts'])
+    closed = closed_form_sample_loglik(case, res['sample_ids'])
+    lg = res['results'].get('logit', {})
+    for n, (a, b) in enumerate(zip(lg.get('sample', []), closed)):
+        if b is not None and not rel_close(a, b):
+            out.append(('logit-on-sample', {'individual': n, 'engine_on_sample': a, 'corrected_logit_closed_form': b,
+                                            'sampled': res['sample_ids'][n]}))
+    if case.get('partial'):
+        if 'sample_exc' in lg:
+            out.append(('logit-exception', lg['sample_exc']))
+        return out
     for n, (sid, lp) in enumerate(zip(res['sample_ids'], res['log_proba'])):
         if sorted(int(x) for x in sid if x is not None) != ids:
             out.append(('not-a-permutation', {'individual': n, 'sampled': sid}))
@@ -713,6 +784,14 @@ def stream_full(ctx):
     for i in range(ctx.n(24, 300)):
         c = gen_case(rng, 'full', {'mode': 'full', 'mev': (i % 3 != 0)})
         cases.append(add_full_model(rng, c))
+    for i in range(ctx.n(6, 80)):
+        cases.append(gen_mevdup_case(rng))
+    for i in range(ctx.n(8, 100)):
+        # strata NOT fully sampled: the engine value of get_logit vs the closed form of the corrected logit
+        # (a concrete witness when the correction enters the utilities wrongly -- invisible at k = n)
+        c = gen_case(rng, 'full', {'mode': 'random', 'mev': False})
+        c['partial'] = True
+        cases.append(complete_full_model(c))
     res = run_impl(ctx, cases)
     items, idx = [], []
     for i, (c, r) in enumerate(zip(cases, res)):
